@@ -129,6 +129,7 @@ type loopInfo struct {
 	preHeap Heap // merged heap on entry edges
 	decAtHead string
 	headHeap Heap
+	entryVals map[*ssa.Phi]Val
 }
 
 type autoCand struct {
@@ -211,7 +212,7 @@ func (g *Gen) specSort(t string) Sort {
 		return SRef
 	case "iface", "error":
 		return SIface
-	case "slice", "bytes":
+	case "slice", "bytes", "[]string", "[]byte":
 		return SSlice
 	case "float64":
 		return SF64
